@@ -11,7 +11,7 @@ import re
 from vlib import factbase as fb
 from vlib import q
 from . import arms as A
-from .common import ctx, loc, self_field, strip_refs
+from .common import ctx, loc, self_field, strip_refs, controlling_tests, absent_test
 
 # --------------------------------------------------------------------------------------------------------- tables
 # Reader arms that may have no effect.  One reason each; (b)/(c) entries are conditional and re-checked on every run.
@@ -639,8 +639,12 @@ def _accessor_table(facts, rep, rid):
                             pats.append((a["pat"], a["body"]))
                     for p, body in pats:
                         for s in A.arm_slots(facts, {"pat": p, "body": body, "guard": None}):
-                            if s["state"] == "kept" and s["slot"].startswith("Node::"):
-                                cov.add(s["slot"])
+                            slot = s["slot"]
+                            # `match self.node() { Some(Node::V(..)) => .. }` and `if let Some(Node::V(..)) = self.node()` name the same slots
+                            while slot.startswith(("v1::Some.0>", "Option::Some.0>", "Some.0>")):
+                                slot = slot.split(">", 1)[1]
+                            if s["state"] == "kept" and slot.startswith("Node::"):
+                                cov.add(slot)
             if cov:
                 out[fb.last_seg(f.def_)] = cov
     return out
@@ -882,15 +886,20 @@ def rule_r3(facts, rep, rid="C01-R3"):
         rep.violation(rid, key, "Tree.node is not the pointer's node payload", f.loc)
     key = f.def_ + "|recurses-on-every-child"
     chain_ok = False
+
+    def _applies_recursion(arg):
+        if arg.get("k") == "path":
+            return fb.norm(arg.get("def") or "").endswith("Tree::from_pointer")
+        return any(y.get("k") in ("call", "mcall") and (fb.callee(y) or "").endswith("Tree::from_pointer") for y in fb.walk(arg))
     for x in fb.walk(f.body):
-        if x.get("k") == "mcall" and x["name"] == "map" and any(y.get("k") in ("call", "mcall") and (fb.callee(y) or "").endswith("Tree::from_pointer") for y in fb.walk(x)):
-            names_ = [m["name"] for m in _chain(c, x)] + [x["name"]]
+        # `.map(from_pointer).flatten()`, `.filter_map(from_pointer)` and `.flat_map(from_pointer)` are the same conversion
+        if x.get("k") == "mcall" and x["name"] in ("map", "filter_map", "flat_map") and x.get("args") and _applies_recursion(x["args"][0]):
             recvs = []
-            r = x
-            while r.get("k") == "mcall":
+            r = x["recv"]
+            while r is not None and r.get("k") == "mcall":
                 recvs.append(r["name"])
                 r = r["recv"]
-            if not (set(recvs) & (LOSSY - {"flatten"})):
+            if not (set(recvs) & LOSSY):
                 chain_ok = True
     if chain_ok:
         rep.ok(rid, key, "children.into_iter().map(from_pointer).flatten() without filter/skip/take", f.loc)
@@ -1046,20 +1055,19 @@ def rule_r5(facts, rep, rid="C01-R5"):
     rets = [x for x in fb.walk(pb.body, into_closures=False) if x.get("k") == "ret"]
     allowed = 0
     for i, r in enumerate(rets):
-        iff = [p for p in c.parents(r) if p.get("k") == "if"]
-        cond = fb.show_canon(pb, iff[0]["c"]) if iff else "?"
+        tests = controlling_tests(c, r)
+        cond = fb.show_canon(pb, tests[0][0]) if tests else "?"
         key = "%s|early-return:%d" % (pb.def_, i)
-        if cond == "P1.is_empty()" or ("first_header_level" in cond and "is_none()" in cond):
+        if (tests and tests[0][1] == "true" and cond == "P1.is_empty()") or (tests and absent_test(c, tests[0], "first_header_level")):
             allowed += 1
-            rep.ok(rid, key, "audited guard `%s`" % cond, loc(pb, r), nontrivial=False)
+            rep.ok(rid, key, "audited guard `%s` (%s)" % (cond, tests[0][1]), loc(pb, r), nontrivial=False)
         else:
             rep.violation(rid, key, "new early return in process_blocks under `%s`: the blocks of that range are never added to the note" % cond[:80], loc(pb, r))
     # the no-heading return must come after the pre-header loop
     if calls_block:
         for r in rets:
-            iff = [p for p in c.parents(r) if p.get("k") == "if"]
-            cond = fb.show(iff[0]["c"]) if iff else "?"
-            if "first_header_level" in cond:
+            tests = controlling_tests(c, r)
+            if tests and absent_test(c, tests[0], "first_header_level"):
                 key = pb.def_ + "|no-heading-return-after-block-loop"
                 if (r.get("s") or [0])[0] > (calls_block[0].get("s") or [0])[0]:
                     rep.ok(rid, key, "the `no heading` return follows the loop over the pre-heading blocks", loc(pb, r))
@@ -1169,14 +1177,23 @@ def rule_r6(facts, rep, rid="C01-R6"):
     c = ctx(tm)
     key = tm.def_ + "|re-emits-front-matter"
     ok = False
+    # some string-building expression (format! / push_str / concat) combines the stored front matter - a value that comes from
+    # `self.metadata.get(..)` / `self.metadata[..]`, in whatever idiom it is looked up - with the rendered body
     for x in fb.walk(tm.body):
-        if x.get("k") == "if" and "contains_key" in fb.show(x["c"]) and self_field(_recv_of(x["c"])) == "metadata":
-            at = c.mentions(x["t"])
-            if q.has_call(at, "HashMap::get") and ("field", "metadata") in at and (("local", "markdown") in at or q.has_call(at, "NodeIter::to_markdown")):
-                lits = [a[1] for a in at if a[0] == "lit" and a[1] and a[1].startswith("s:")]
-                ok = True
+        if x.get("k") not in ("call", "mcall", "binary"):
+            continue
+        cal = fb.callee(x) or ""
+        if x.get("k") in ("call", "mcall") and not (cal.endswith("fmt::format") or cal.endswith("::push_str") or cal.endswith("::concat") or cal.endswith("::join")):
+            continue
+        pv = c.vprov(x)
+        at = c.mentions(x)
+        has_meta = ("field", "metadata") in at or any(a == ("field", "metadata") for a in pv)
+        looked_up = q.has_call(pv, "HashMap::get") or q.has_call(at, "HashMap::get") or any(y.get("k") == "index" for y in fb.walk(x))
+        has_body = q.has_call(pv, "NodeIter::to_markdown") or q.has_call(at, "NodeIter::to_markdown")
+        if has_meta and looked_up and has_body:
+            ok = True
     if ok:
-        rep.ok(rid, key, "metadata.get(key) is printed in front of the body on the contains_key edge", tm.loc)
+        rep.ok(rid, key, "the value of metadata.get(key) is combined with the rendered body", tm.loc)
     else:
         rep.violation(rid, key, "Graph::to_markdown does not print the stored front matter in front of the body", tm.loc)
     key = tm.def_ + "|body-from-own-key"
@@ -1196,7 +1213,7 @@ def rule_r6(facts, rep, rid="C01-R6"):
             joiner = g
     cands = [x for x in fb.calls_in(ni.body) if (fb.callee(x) or "").startswith("liwe::model::graph::blocks_to_markdown")]
     key = ni.def_ + "|joiner"
-    if len(cands) == 1 and _join_literal(facts, fb.callee(cands[0])) == "\n":
+    if len(cands) == 1 and _join_literal(facts, fb.callee(cands[0]), cands[0]) == "\n":
         rep.ok(rid, key, "%s joins with a blank line" % fb.last_seg(fb.callee(cands[0])), ni.loc)
     else:
         rep.violation(rid, key, "a note's blocks are no longer joined with the blank-line joiner (%s): adjacent paragraphs merge into one" % [fb.last_seg(fb.callee(x)) for x in cands], ni.loc)
@@ -1205,7 +1222,7 @@ def rule_r6(facts, rep, rid="C01-R6"):
         if any(fb.last_seg(v) == "BlockQuote" for v in vs):
             cands = [x for x in fb.calls_in(arm["body"]) if (fb.callee(x) or "").startswith("liwe::model::graph::blocks_to_markdown")]
             key = gb.def_ + "|arm:BlockQuote|joiner"
-            if len(cands) == 1 and _join_literal(facts, fb.callee(cands[0])) == "\n":
+            if len(cands) == 1 and _join_literal(facts, fb.callee(cands[0]), cands[0]) == "\n":
                 rep.ok(rid, key, "quote blocks joined with a blank line", loc(gb, arm["body"]))
             else:
                 rep.violation(rid, key, "blocks inside a quote are no longer joined with the blank-line joiner", loc(gb, arm["body"]))
@@ -1215,7 +1232,7 @@ def rule_r6(facts, rep, rid="C01-R6"):
                 key = "%s|arm:%s|joiner" % (gb.def_, fb.last_seg(v))
                 okj = False
                 for x in cands:
-                    if len(x["args"]) >= 2 and "is_sparce_list" in fb.show(x["args"][1]):
+                    if len(x["args"]) >= 2 and "is_sparce_list" in fb.show_canon(gb, x["args"][1]):
                         okj = True
                 if okj:
                     rep.ok(rid, key, "item blocks joined according to is_sparce_list()", loc(gb, arm["body"]))
@@ -1231,21 +1248,62 @@ def _recv_of(e):
     return None
 
 
-def _join_literal(facts, callee_def):
-    g = facts.fns.get(callee_def)
-    if g is None or g.body is None:
-        return None
-    lits = []
-    for x in fb.walk(g.body):
-        if x.get("k") == "mcall" and x["name"] == "join" and x["args"]:
-            a = x["args"][0]
-            if a.get("k") == "lit" and str(a.get("v", "")).startswith("s:"):
-                lits.append(a["v"][2:])
-            else:
-                lits.append(None)
-    if len(lits) == 1:
-        return lits[0]
+def _lit_str(a):
+    if a is not None and a.get("k") == "lit" and str(a.get("v", "")).startswith("s:"):
+        return a["v"][2:]
     return None
+
+
+def _lit_bool(a):
+    if a is not None and a.get("k") == "lit" and str(a.get("v", "")).startswith("bool:"):
+        return a["v"] == "bool:true"
+    return None
+
+
+def _block_value(e):
+    while e is not None and e.get("k") == "block" and not e.get("stmts"):
+        e = e.get("e")
+    return e
+
+
+def _sep_of(facts, g, argvals, depth=0):
+    """Separator a block-joiner fn joins with, given what is known about its arguments (True / False / None per parameter):
+    `join("\n")`, `join(if sparce { "\n" } else { "" })` with `sparce` a parameter, or a delegation to another joiner."""
+    if g is None or g.body is None or depth > 3:
+        return None
+    pidx = {}
+    for i, p in enumerate(g.params):
+        for _n, lid in fb.pat_bindings(p["pat"]):
+            pidx[lid] = i
+    joins = [x for x in fb.walk(g.body) if x.get("k") == "mcall" and x["name"] == "join" and x["args"]]
+    if len(joins) == 1:
+        a = _block_value(joins[0]["args"][0])
+        if _lit_str(a) is not None:
+            return _lit_str(a)
+        if a is not None and a.get("k") == "if" and a["c"].get("k") == "path" and a["c"].get("res") == "local" and a["c"].get("id") in pidx:
+            v = argvals[pidx[a["c"]["id"]]] if pidx[a["c"]["id"]] < len(argvals) else None
+            t, e = _lit_str(_block_value(a.get("t"))), _lit_str(_block_value(a.get("e")))
+            if v is True:
+                return t
+            if v is False:
+                return e
+        return None
+    if not joins:
+        dele = [x for x in fb.calls_in(g.body) if (fb.callee(x) or "").startswith("liwe::model::graph::blocks_to_markdown") and fb.callee(x) != g.def_]
+        if len(dele) == 1:
+            vals = []
+            for a in dele[0].get("args", []):
+                b = _lit_bool(a)
+                if b is None and a.get("k") == "path" and a.get("res") == "local" and a.get("id") in pidx and pidx[a["id"]] < len(argvals):
+                    b = argvals[pidx[a["id"]]]
+                vals.append(b)
+            return _sep_of(facts, facts.fns.get(fb.callee(dele[0])), vals, depth + 1)
+    return None
+
+
+def _join_literal(facts, callee_def, call=None):
+    vals = [_lit_bool(a) for a in (call.get("args", []) if call is not None else [])]
+    return _sep_of(facts, facts.fns.get(callee_def), vals)
 
 
 # ------------------------------------------------------------------------------------------------------------ R7 lossy adapters inventory
@@ -1287,19 +1345,19 @@ def rule_r7(facts, rep, rid="C01-R7"):
             if not cal.startswith(("std::iter::", "core::iter::", "itertools::", "rayon::iter::", "std::vec::Vec::", "alloc::vec::Vec::", "core::slice::", "std::slice::",
                                    "std::collections::VecDeque::", "alloc::collections::")):
                 continue        # maps/sets/strings/local methods: not a content sequence
-            i = counts.get(x["name"], 0)
-            counts[x["name"]] = i + 1
+            # `.map(f).flatten()`, `.filter_map(f)` and `.flat_map(f)` are one family: an audit of one form covers the others
+            fam = "flatten" if x["name"] in ("filter_map", "flat_map") else x["name"]
+            i = counts.get(fam, 0)
+            counts[fam] = i + 1
             n += 1
-            key = "%s|%s|%d" % (f.def_, x["name"], i)
+            key = "%s|%s|%d" % (f.def_, fam, i)
             why = None
-            if cal.startswith(("core::slice::", "std::slice::")) and x["name"] in ("last", "first"):
-                # a shared borrow of one element: nothing is removed; if its only consumer is a kind test (a match / matches! whose arms bind nothing) it is a pure query
-                par = next(iter(ctx(f).parents(x)), None)
-                if par is not None and par.get("k") == "match" and par.get("e") is x and not any(fb.pat_bindings(a_["pat"]) for a_ in par.get("arms", [])):
-                    rep.ok(rid, key, "pure query: `slice::%s()` is only tested for its kind (`%s`)" % (x["name"], fb.show(par)[:60]), loc(f, x), nontrivial=False)
-                    continue
+            if cal.startswith(("core::slice::", "std::slice::")) and x["name"] in ("last", "first", "last_mut", "first_mut"):
+                # slice accessors borrow one element and leave the sequence as it is (unlike Iterator::last, which consumes): not an adapter
+                rep.ok(rid, key, "element accessor `slice::%s()`: borrows one element, the sequence itself is untouched" % x["name"], loc(f, x), nontrivial=False)
+                continue
             for (fs, nm, ordn), reason in LOSSY_OK.items():
-                if f.def_.endswith(fs) and nm == x["name"] and ordn == i:
+                if f.def_.endswith(fs) and nm == fam and ordn == i:
                     why = reason
             if why:
                 rep.ok(rid, key, "audited: " + why, loc(f, x), nontrivial=True)
@@ -1346,6 +1404,20 @@ def _operand_class(c, call):
         a = call["args"][0]
         if a.get("k") == "lit":
             pat = str(a.get("v", ""))
+    def _format_class(e):
+        lits = [y for y in fb.walk(e) if y.get("k") == "lit" and str(y.get("v", "")).startswith(("bs:", "s:"))]
+        fm = any("format" in (y.get("m") or "") for y in fb.walk(e))
+        if fm and lits:
+            vis = _printable(str(lits[0]["v"]).split(":", 1)[1])
+            if vis and not vis[0].isspace():
+                return "formatted-with-visible-prefix:" + vis.strip()
+            return "formatted-with-blank-prefix"
+        return None
+    # the trimmed value is itself a `format!(..)` (the two map steps fused into one)
+    if r is not None and r.get("k") in ("call", "block") and any("format" in (y.get("m") or "") for y in fb.walk(r)):
+        fc = _format_class(r)
+        if fc:
+            return fc
     if r is not None and r.get("k") == "path" and r.get("res") == "local":
         b = c.binds.get(r["id"])
         if b and b[0] == "expr":
@@ -1354,13 +1426,9 @@ def _operand_class(c, call):
             if src.get("k") == "mcall" and src["name"] == "map":
                 for a in src["args"]:
                     if a.get("k") == "closure":
-                        lits = [y for y in fb.walk(a["body"]) if y.get("k") == "lit" and str(y.get("v", "")).startswith(("bs:", "s:"))]
-                        fm = any("format" in (y.get("m") or "") for y in fb.walk(a["body"]))
-                        if fm and lits:
-                            vis = _printable(str(lits[0]["v"]).split(":", 1)[1])
-                            if vis and not vis[0].isspace():
-                                return "formatted-with-visible-prefix:" + vis.strip()
-                            return "formatted-with-blank-prefix"
+                        fc = _format_class(a["body"])
+                        if fc:
+                            return fc
             if src.get("k") == "mcall" and src["name"] in ("lines", "split", "split_terminator", "chars", "iter"):
                 return "content-line"
             if src.get("k") == "mcall" and src["name"] in ("map", "filter", "enumerate"):
